@@ -114,6 +114,18 @@ impl<'a> Scenario for HonestScenario<'a> {
 pub(crate) fn judge(sim: &Sim, outcome: &RunOutcome) -> Vec<(String, String)> {
     let mut bad = vec![];
     if let Some(p) = &outcome.panic {
+        // the documented long-fork abort: the stored tip lies more than last-N blocks beyond the
+        // point where its branch and the branch the peers announce part (restarts let the old
+        // branch grow by a block each, which can push a shallow fork beyond last-N) - outside
+        // the property ("forks shallower than last-N")
+        if p.msg.contains("long fork detected") && sim.world.chains.len() >= 2 {
+            let (a, b) = (&sim.world.chains[0], &sim.world.chains[1]);
+            let fork_at = (0..=a.tip_number().min(b.tip_number())).take_while(|n| a.blocks[*n as usize].hash() == b.blocks[*n as usize].hash()).count() as u64 - 1;
+            let tip: u64 = sim.c().storage.get_tip_header().raw().number().unpack();
+            if tip > fork_at + sim.c().cfg.last_n {
+                return vec![];
+            }
+        }
         bad.push((format!("abort/{}", p.site()), p.describe()));
         return bad;
     }
